@@ -60,7 +60,7 @@ def get_expectation_value_from_frequencies(
         * 2
         - 1
     )
-    num_measurements = sum(bitstring_frequencies.values())
+    num_measurements = sum(int(count) for count in bitstring_frequencies.values())
     expectation_values: np.ndarray = (
         np.fromiter(bitstring_frequencies.values(), dtype=int)
         * parity
